@@ -20,7 +20,7 @@ T = {
  'C08-B': ('C08', 'a[i] := e claims the spill word for the element address only "if the right-hand side uses the stack", forgetting unary ~', 'element assignment whose RHS root is ~, ~=, >= or <= with a non-simple operand: the saved address is overwritten and the store goes to a wild address'),
  'C09-A': ('C09', 'SymbolTable::insert uses emplace and then dereferences the moved-from unique_ptr for a redeclaration diagnostic', 'the same name declared twice in one scope: SIGSEGV'),
  'C09-B': ('C09', 'new arity check does an unchecked dynamic_cast<Proc*> on the callee symbol', 'a call through a procedure-valued formal (proc apply(proc p) is p()): SIGSEGV'),
- 'C10-A': ('C10', 'lexer comment skipping loop drops the end-of-file test', "a '#' comment on the last line without trailing newline: hexasm never terminates"),
+ 'C10-Ap': ('C10', 'lexer comment skipping loop drops the end-of-file test', "a '#' comment on the last line without trailing newline: hexasm never terminates"),
  'C10-B': ('C10', 'unknown-label check moved into the relative-operand helper only', 'undefined label as operand of LDAM/LDBM/STAM/LDAC/LDBC: null Label* dereferenced'),
  'C11-A': ('C11', 'constant local vals no longer get a frame slot (early return skips setStackOffset)', 'an assignment to a constant local val: STAI_FB with the uninitialised Symbol::stackOffset, binary varies with heap contents'),
  'C11-Bp': ('C11', 'genString packs words with memcpy from a length+chars buffer and reads past its end (ported to HEAD: genString changed by the empty-string fix)', 'string literal of >= 15 characters with length % 4 in {0,1}: uninitialised heap bytes in the last DATA word'),
